@@ -27,8 +27,9 @@ type config struct {
 	Long      int    `json:"long_stall_ticks,omitempty"`
 	SkipFirst bool   `json:"skip_option_before_size_option,omitempty"`
 	MaxFirst  bool   `json:"limit_option_before_size_option,omitempty"`
-	Syms      []int  `json:"symbols,omitempty"` // restricted alphabet (nil = all that stay within 2^15-1 of the highest)
-	First     int    `json:"first_symbol"`      // shard: histories that start with this symbol (-1: not sharded)
+	Rebind    bool   `json:"unbind_then_bind_another_stream,omitempty"` // scripted: see rebindScript
+	Syms      []int  `json:"symbols,omitempty"`                         // restricted alphabet (nil = all that stay within 2^15-1 of the highest)
+	First     int    `json:"first_symbol"`                              // shard: histories that start with this symbol (-1: not sharded)
 }
 
 // allowed lists the symbols whose offset keeps the arrival within 2^15-1 of
@@ -554,6 +555,8 @@ func configs(tier string) []config {
 	}
 	// the per-packet limit given before the size option, a window of 1024 and jumps that leave more than 512 numbers missing
 	out = append(out, config{Size: 1024, Skip: 0, Max: 2, Start: 65000, Depth: 4, MaxFirst: true, Syms: []int{0, 1, 3, 4, 5, 9, 15, 16}})
+	// a stream with an open gap is unbound, another NACK stream is bound and stays silent over two ticks
+	out = append(out, config{Size: 64, Skip: 0, Max: 0, Start: 65530, Rebind: true})
 	// two SSRCs on one interceptor (product alphabet): independence
 	out = append(out, config{Size: 64, Skip: 0, Max: 1, Start: 65530, Depth: 3, Two: true})
 	if tier == "thorough" {
@@ -577,7 +580,7 @@ func configs(tier string) []config {
 func shardedConfigs(tier string) []config {
 	var out []config
 	for _, c := range configs(tier) {
-		if c.Long > 0 || c.Two || c.Syms == nil || c.Size > 64 {
+		if c.Long > 0 || c.Rebind || c.Two || c.Syms == nil || c.Size > 64 {
 			// state de-duplication across first symbols is what keeps the full alphabet cheap: not sharded
 			c.First = -1
 			out = append(out, c)
@@ -605,6 +608,9 @@ func run(tier string, i int, deadline time.Time) *hk.JobResult {
 	r := &hk.JobResult{Exhaustive: true, Bounds: map[string]any{"depth": c.Depth, "alphabet": len(symNames)}}
 	if c.Long > 0 {
 		return longStall(c, r)
+	}
+	if c.Rebind {
+		return rebindScript(c, r)
 	}
 	alpha := len(symNames)
 	if c.Two {
@@ -665,6 +671,62 @@ func longStall(c config, r *hk.JobResult) *hk.JobResult {
 	return r
 }
 
+// rebindScript: a stream with an open gap is unbound and another stream that negotiated NACK is bound on the
+// same interceptor. Until the new stream has received its first packet nothing is requested for it ("only
+// numbers after the first packet ever received", "streams are independent"); afterwards exactly its own gaps.
+func rebindScript(c config, r *hk.JobResult) *hk.JobResult {
+	var viol *hk.Violation
+	hist := []string{"A: arrive 0, +2", "tick", "unbind A", "bind B", "tick", "tick", "B: arrive 0, +2", "tick"}
+	fail := func(step int, format string, a ...any) {
+		if viol == nil {
+			viol = &hk.Violation{Key: "C03:request-for-stream-that-has-not-received-anything", Message: fmt.Sprintf("step %d (%s): ", step+1, hist[step]) + fmt.Sprintf(format, a...),
+				Replay: replay{Config: c, History: hist[:step+1]}}
+		}
+	}
+	res := vsched.Run(vsched.Options{Strategy: vsched.BackgroundFirst{}, MaxSteps: 2_000_000}, func() {
+		s, err := newSystem(c)
+		if err != nil {
+			vsched.Failf("setup: %v", err)
+			return
+		}
+		a := s.st[0]
+		_ = s.arrive(a, a.base)
+		_ = s.arrive(a, a.base+2)
+		if _, err := s.apply(0, symTick); err != nil {
+			fail(1, "%v", err)
+		}
+		s.icpt.UnbindRemoteStream(&interceptor.StreamInfo{SSRC: a.ssrc, RTCPFeedback: hk.NackFB})
+		b := &stream{ssrc: 0x1777, feed: &hk.FeedReader{}, m: newModel(), base: 1<<20 + 40000}
+		b.rd = s.icpt.BindRemoteStream(&interceptor.StreamInfo{SSRC: b.ssrc, RTCPFeedback: hk.NackFB}, b.feed)
+		s.st = []*stream{b}
+		for k := 0; k < 2; k++ {
+			vsched.Advance(interval)
+			if got := s.sink.Take(); len(got) > 0 {
+				fail(4+k, "RTCP written although the only bound stream has not received a packet yet: %v", got)
+			}
+			r.Transitions++
+		}
+		_ = s.arrive(b, b.base)
+		_ = s.arrive(b, b.base+2)
+		if _, err := s.apply(0, symTick); err != nil {
+			fail(7, "%v", err)
+		}
+		r.Transitions += 6
+		s.icpt.Close()
+	})
+	r.Executions, r.States, r.Nontrivial = 1, r.Transitions, 1
+	r.Outcomes = map[string]int{"rebind-script": 1}
+	if viol == nil {
+		if msg := runFailure(res); msg != "" {
+			viol = &hk.Violation{Key: "C03:runtime", Message: msg, Replay: replay{Config: c}}
+		}
+	}
+	if viol != nil {
+		r.Violations = append(r.Violations, *viol)
+	}
+	return r
+}
+
 func replayFn(raw json.RawMessage) string {
 	var rp replay
 	if err := json.Unmarshal(raw, &rp); err != nil {
@@ -672,6 +734,13 @@ func replayFn(raw json.RawMessage) string {
 	}
 	if rp.Config.Long > 0 {
 		r := longStall(rp.Config, &hk.JobResult{})
+		if len(r.Violations) > 0 {
+			return r.Violations[0].Message
+		}
+		return ""
+	}
+	if rp.Config.Rebind {
+		r := rebindScript(rp.Config, &hk.JobResult{})
 		if len(r.Violations) > 0 {
 			return r.Violations[0].Message
 		}
